@@ -2568,8 +2568,10 @@ static Node *conditional(Token **rest, Token *tok) {
 
   if (equal(tok->next, ":")) {
     // [GNU] Compile `a ?: b` as `tmp = a, tmp ? tmp : b`.
+    // The temporary takes part in place of `a`, so it gets the type
+    // `a` has after the integer promotions (a narrow bit-field is an int).
     add_type(cond);
-    Obj *var = new_lvar("", cond->ty);
+    Obj *var = new_lvar("", promoted_type(cond));
     Node *lhs = new_binary(ND_ASSIGN, new_var_node(var, tok), cond, tok);
     Node *rhs = new_node(ND_COND, tok);
     rhs->cond = new_var_node(var, tok);
